@@ -448,7 +448,7 @@ pub struct RunOpts {
 
 impl Default for RunOpts {
     fn default() -> Self {
-        RunOpts { trace_op: None, stall_ms: 20_000, check_settings_independence: true, check_f64_agreement: true }
+        RunOpts { trace_op: None, stall_ms: 60_000, check_settings_independence: true, check_f64_agreement: true }
     }
 }
 
